@@ -363,7 +363,7 @@ class Sim:
         self.probes = {}
 
     # -- bookkeeping
-    def record(self, kind, **data):
+    def record(self, kind, /, **data):
         self._seq += 1
         ev = (self._seq, kind, self.nsteps, round(self.now, 9), data)
         self.history.append(ev)
@@ -386,6 +386,13 @@ class Sim:
     def call_ext(self, delay, fn, label=""):
         self._ext_seq += 1
         e = _Ext(self.now + max(0.0, delay), self._ext_seq, fn, label)
+        heapq.heappush(self._ext, e)
+        return e
+
+    def call_ext_at(self, when, fn, label=""):
+        """Like call_ext but at an absolute virtual time (no float round trip: keeps equal times equal)."""
+        self._ext_seq += 1
+        e = _Ext(max(when, self.now), self._ext_seq, fn, label)
         heapq.heappush(self._ext, e)
         return e
 
